@@ -579,6 +579,11 @@ def gen_store_case(rng, tier):
             a, b = rng.sample(puts, 2)
             b['item'] = copy.deepcopy(a['item'])
             a['again'] = b['again'] = True
+    if kind == 'PriorityStore' and rng.random() < 0.4:
+        # a store that already holds half a dozen items in no particular key order when the getters arrive
+        pre = [{'op': 'put', 'patience': None, 'style': 'manual', 'on_intr': 'leave', 'exit_exc': False,
+                'item': {'pi': True, 'p': rng.choice([0, 1, 2, 3, 5, 7, 9, 9, 4]), 'u': nu()}} for _ in range(rng.randint(4, 8))]
+        procs.insert(0, {'id': 'u%d' % len(procs), 'ops': pre})
     if kind == 'PriorityStore':
         # one store holds either PriorityItems or bare tuples, not both (they do not compare)
         pi = rng.random() < 0.5
